@@ -34,7 +34,8 @@ RULE = ("part 'handoff': ProgGen programs whose remote nodes hand work (multi-ho
         "messages. part 'subprocess': the id crosses to a fresh interpreter via argv. part 'race': one preserve_context callable "
         "invoked by 2-4 threads under the line-granular scheduler (LINE events on eliot/_action.py), ALL one-preemption schedules "
         "per priority order plus sampled deeper ones: f runs exactly once, that caller gets f's result / f's exception object, "
-        "every other caller gets TooManyCalls, exactly one remote action is logged; with no current action preserve_context(f) is f. "
+        "every other caller gets TooManyCalls, exactly one remote action is logged; with no current action preserve_context(f) is f; the callables handed over are functions, functools.partial objects, objects with "
+        "__call__ and bound methods. "
         "non-trivial = hand-off program with >=2 hops or a child process; race schedule whose preemption fired in _action.py")
 ASSUMPTIONS = ["each serialized id is continued exactly once", "merge orders are sampled (the parser's order-independence is C09's subject)"]
 EXHAUSTIVE_NOTE = "race: all one-preemption schedules for every priority order of the invoking threads"
